@@ -322,6 +322,17 @@ func runC09(c *Ctx) {
 					if !ok {
 						continue
 					}
+					// a whole-struct assignment through a pointer (*h = *other) rewrites every identifying field at once
+					if pt, isP := st.Addr.Type().Underlying().(*types.Pointer); isP {
+						if nm, isN := pt.Elem().(*types.Named); isN && nm.Obj().Name() == "Header" && nm.Obj().Pkg() != nil && strings.HasSuffix(nm.Obj().Pkg().Path(), "protocol/jt808") {
+							if _, isLocal := st.Addr.(*ssa.Alloc); !isLocal {
+								nStores++
+								R.Add("S.header-immutable", fmt.Sprintf("%s / whole-struct store to a Header / %s", shortFn(fn), c.constructOf(fn, st)), c.P.RelPos(st.Pos()), report.Violated,
+									fmt.Sprintf("%s overwrites a whole Header through a pointer: if that header belongs to a message that was already delivered (the first fragment kept for a transfer, a session's header), its ID, phone, serial and package numbers change under the holder", shortFn(fn)))
+							}
+							continue
+						}
+					}
 					fa, ok := st.Addr.(*ssa.FieldAddr)
 					if !ok {
 						continue
